@@ -3,6 +3,7 @@ use crate::common::*;
 use spdcalc::crystal::{CrystalMeta, CrystalType, OpticAxisType};
 use spdcalc::dim::ucum::{K, M};
 use spdcalc::utils::from_celsius_to_kelvin;
+use std::cell::RefCell;
 use std::str::FromStr;
 
 pub fn variants() -> Vec<CrystalType> {
@@ -25,12 +26,74 @@ fn vname(c: &CrystalType) -> String {
   format!("{:?}", c)
 }
 
-/// indices at wavelength `lam` (m) and temperature `tk` (K) from the real code
-fn idx(c: &CrystalType, lam: f64, tk: f64) -> Option<[f64; 3]> {
+/// indices at wavelength `lam` (m) and temperature `tk` (K) from the real code, not recorded
+fn idx_raw(c: &CrystalType, lam: f64, tk: f64) -> Option<[f64; 3]> {
   guard(|| {
     let n = c.get_indices(lam * M, tk * K);
     [n.x, n.y, n.z]
   })
+}
+
+/// a sample of the evaluations made during the run, re-evaluated at the end (`C01.history`)
+struct Sample {
+  label: String,
+  crystal: CrystalType,
+  lam: f64,
+  tk: f64,
+  out: Option<[f64; 3]>,
+}
+
+struct Hist {
+  calls: u64,
+  n_expr: usize,
+  n_builtin: usize,
+  cur_expr: String,
+  samples: Vec<Sample>,
+}
+
+thread_local! {
+  static HIST: RefCell<Hist> = RefCell::new(Hist { calls: 0, n_expr: 0, n_builtin: 0, cur_expr: String::new(), samples: Vec::new() });
+}
+const HIST_CAP_BUILTIN: usize = 6000;
+const HIST_CAP_EXPR: usize = 6000;
+
+/// name under which the next expression-crystal evaluations are remembered
+fn set_expr_label(l: &str) {
+  HIST.with(|h| h.borrow_mut().cur_expr = l.to_string());
+}
+
+/// indices from the real code; expression-crystal calls and a thinned sample of the built-in calls are
+/// remembered for the history-independence predicate
+fn idx(c: &CrystalType, lam: f64, tk: f64) -> Option<[f64; 3]> {
+  let out = idx_raw(c, lam, tk);
+  HIST.with(|h| {
+    let mut h = h.borrow_mut();
+    h.calls += 1;
+    let is_expr = matches!(c, CrystalType::Expr(_));
+    let keep = if is_expr {
+      h.n_expr < HIST_CAP_EXPR
+    } else {
+      h.n_builtin < HIST_CAP_BUILTIN && (h.n_builtin < 300 || h.calls % 997 == 0)
+    };
+    if keep {
+      let label = if is_expr { format!("expr/{}", h.cur_expr) } else { format!("builtin/{}", vname(c)) };
+      if is_expr {
+        h.n_expr += 1;
+      } else {
+        h.n_builtin += 1;
+      }
+      h.samples.push(Sample { label, crystal: c.clone(), lam, tk, out });
+    }
+  });
+  out
+}
+
+fn same_bits(a: &Option<[f64; 3]>, b: &Option<[f64; 3]>) -> bool {
+  match (a, b) {
+    (None, None) => true,
+    (Some(x), Some(y)) => (0..3).all(|i| x[i].to_bits() == y[i].to_bits()),
+    _ => false,
+  }
 }
 
 fn kelvin(tc: f64) -> f64 {
@@ -104,6 +167,7 @@ pub fn run(ctx: &mut Ctx) {
     temperature_law(ctx, c);
   }
   expression_crystals(ctx);
+  history_independence(ctx);
 }
 
 // --------------------------------------------------------------------------- K: indices
@@ -446,27 +510,58 @@ fn expr_sources() -> Vec<(&'static str, &'static str, f64, f64)> {
   ]
 }
 
+struct ExprCase {
+  v: &'static str,
+  built_in: CrystalType,
+  ex: CrystalType,
+  lo: f64,
+  hi: f64,
+  l_from: f64,
+  l_to: f64,
+}
+
+/// |expression crystal − built-in| allowed by `C01.expr_same_formula`: 16 ulp of an index in [1,4)
+const EXPR_TOL: f64 = 16.0 * 4.45e-16;
+
+/// All expression crystals are evaluated on ONE shared (λ, T) grid, crystal by crystal at each point
+/// (first pass in table order, second pass — fresh points — in reverse order), so that any state
+/// shared between different expression crystals, or kept between calls, shows up; each value is
+/// compared with the built-in crystal on the real code (S `C01.expr_same_formula`: the statement's
+/// "user expression crystals built from the same formulas") and with the model (K `indices_expr`).
 fn expression_crystals(ctx: &mut Ctx) {
   let cs = variants();
-  let n = (ctx.n / 4).max(8);
+  let mut cases: Vec<ExprCase> = vec![];
   for (v, json, l_from, l_to) in expr_sources() {
     let built_in = cs.iter().find(|c| vname(c) == v).unwrap().clone();
     let parsed: Result<CrystalType, _> = serde_json::from_str(json);
-    let ex = match parsed {
-      Ok(e @ CrystalType::Expr(_)) => e,
+    match parsed {
+      Ok(e @ CrystalType::Expr(_)) => {
+        let (lo, hi) = gen_window(&built_in);
+        cases.push(ExprCase { v, built_in, ex: e, lo, hi, l_from, l_to });
+      }
       _ => {
         ctx.k("indices_expr", &format!("{} {} {}", v, fl(1e-6), fl(293.15)), "EXPR-PARSE-FAILED");
-        continue;
+        ctx.s("C01.expr_same_formula", false, &format!("expr/{}", v), &format!("crystal={} parse=failed", v));
       }
-    };
-    let (lo, hi) = gen_window(&built_in);
+    }
+  }
+  let g_lo = cases.iter().map(|c| c.lo).fold(f64::INFINITY, f64::min);
+  let g_hi = cases.iter().map(|c| c.hi).fold(0.0, f64::max);
+  let c_lo = cases.iter().map(|c| c.lo).fold(0.0, f64::max);
+  let c_hi = cases.iter().map(|c| c.hi).fold(f64::INFINITY, f64::min);
+  let n = ctx.n.max(16);
+  let mut bad: Vec<Option<String>> = cases.iter().map(|_| None).collect();
+  let mut cnt: Vec<usize> = cases.iter().map(|_| 0).collect();
+  let mut worst: Vec<f64> = cases.iter().map(|_| 0.0).collect();
+  for pass in 0..2 {
     for i in 0..n {
+      // half of the points over the union of the windows, half inside the common part (all crystals)
+      let (a, b) = if i % 2 == 0 || !(c_lo < c_hi) { (g_lo, g_hi) } else { (c_lo, c_hi) };
       let u = (i as f64 + ctx.rng.unit()) / n as f64;
-      let lam = (lo.ln() + (hi.ln() - lo.ln()) * u).exp().clamp(lo, hi);
+      let lam = (a.ln() + (b.ln() - a.ln()) * u).exp().clamp(a, b);
       let l_um = lam / 1e-6;
-      // keep away from the branch point itself (meval has no `if`)
-      if !(l_um >= l_from && l_um < l_to) || (l_um - 1.2).abs() < 1e-9 {
-        continue;
+      if (l_um - 1.2).abs() < 1e-9 {
+        continue; // meval has no `if`: keep off the KTP branch point itself
       }
       let tc = match ctx.rng.below(6) {
         0 => -50.0,
@@ -476,12 +571,77 @@ fn expression_crystals(ctx: &mut Ctx) {
         _ => ctx.rng.range(-50.0, 200.0),
       };
       let tk = kelvin(tc);
-      let out = match idx(&ex, lam, tk) {
-        Some(nn) => fls(&nn),
-        None => "PANIC".to_string(),
-      };
-      ctx.count(&format!("indices_expr/{}", v));
-      ctx.k("indices_expr", &format!("{} {} {}", v, fl(lam), fl(tk)), &out);
+      let order: Vec<usize> = if pass == 0 { (0..cases.len()).collect() } else { (0..cases.len()).rev().collect() };
+      let mut applicable = 0;
+      for j in order {
+        let c = &cases[j];
+        if !(lam >= c.lo && lam <= c.hi && l_um >= c.l_from && l_um < c.l_to) {
+          continue;
+        }
+        applicable += 1;
+        set_expr_label(&format!("{}{}", c.v, if c.l_to < 2.0 { "-lo" } else if c.l_from > 0.0 { "-hi" } else { "" }));
+        let got = idx(&c.ex, lam, tk);
+        let want = idx(&c.built_in, lam, tk);
+        let out = match got {
+          Some(nn) => fls(&nn),
+          None => "PANIC".to_string(),
+        };
+        ctx.count(&format!("indices_expr/{}", c.v));
+        ctx.k("indices_expr", &format!("{} {} {}", c.v, fl(lam), fl(tk)), &out);
+        cnt[j] += 1;
+        let ok = match (got, want) {
+          (Some(g), Some(w)) => (0..3).all(|a| {
+            let d = (g[a] - w[a]).abs();
+            if d > worst[j] {
+              worst[j] = d;
+            }
+            d <= EXPR_TOL
+          }),
+          _ => false,
+        };
+        if !ok && bad[j].is_none() {
+          bad[j] = Some(format!(
+            "crystal={} pass={} lam_nm={} lam_bits={} T_C={} T_K_bits={} expr={:?} builtin={:?}",
+            c.v, pass, lam * 1e9, fl(lam), tc, fl(tk), got, want
+          ).replace(", ", ","));
+        }
+      }
+      ctx.count(&format!("expr_grid/crystals_at_point={}", applicable));
     }
+  }
+  for (j, c) in cases.iter().enumerate() {
+    let branch = if c.l_to < 2.0 { "/lo" } else if c.l_from > 0.0 { "/hi" } else { "" };
+    let base = format!("crystal={}{} cases={} worst_abs_dev={:.3e}", c.v, branch, cnt[j], worst[j]);
+    ctx.s("C01.expr_same_formula", bad[j].is_none(), &format!("expr/{}", c.v), bad[j].as_ref().unwrap_or(&base));
+  }
+}
+
+// --------------------------------------------------------------------------- S: history independence
+/// indices are a function of (crystal, λ, T) only: a sample of the evaluations made earlier in this run
+/// (every expression-crystal call, a thinned sample of the built-in calls) is evaluated again, newest
+/// first, and must reproduce the earlier values bit for bit; then once more oldest first.
+fn history_independence(ctx: &mut Ctx) {
+  let samples: Vec<Sample> = HIST.with(|h| std::mem::take(&mut h.borrow_mut().samples));
+  let mut groups: std::collections::BTreeMap<String, (usize, Option<String>)> = Default::default();
+  for round in 0..2 {
+    let order: Vec<usize> = if round == 0 { (0..samples.len()).rev().collect() } else { (0..samples.len()).collect() };
+    for k in order {
+      let s = &samples[k];
+      let again = idx_raw(&s.crystal, s.lam, s.tk);
+      let e = groups.entry(s.label.clone()).or_insert((0, None));
+      e.0 += 1;
+      if !same_bits(&s.out, &again) && e.1.is_none() {
+        e.1 = Some(format!(
+          "crystal={} round={} sample={} lam_nm={} lam_bits={} T_K_bits={} first={:?} again={:?}",
+          s.label, round, k, s.lam * 1e9, fl(s.lam), fl(s.tk), s.out, again
+        ).replace(", ", ","));
+      }
+    }
+  }
+  for (label, (n, bad)) in groups.iter() {
+    ctx.count(&format!("history/{}", label.split('/').next().unwrap_or("x")));
+    let _ = n;
+    let base = format!("crystal={} re-evaluations={}", label, n);
+    ctx.s("C01.history", bad.is_none(), &format!("history/{}", label), bad.as_ref().unwrap_or(&base));
   }
 }
